@@ -73,6 +73,10 @@ _src_cache = {}
 
 def function_ast(f):
     """(FunctionDef|Lambda node, source file) of a real function object, re-read from disk"""
+    if not hasattr(f, '__code__'):
+        # e.g. functools.lru_cache / partial objects: what callers run is not (only) the body in the source
+        raise Unsupported("%s is not a plain function any more (%s): its source body is not what callers execute"
+                          % (getattr(f, '__qualname__', getattr(f, '__name__', repr(f))), type(f).__name__))
     code = f.__code__
     key = (code.co_filename, code.co_firstlineno, code.co_name, code.co_code, code.co_names, code.co_varnames)
     if key in _src_cache:
@@ -161,6 +165,8 @@ class Interp:
                 return len(c['items']) > 0
             if k == 'obj':
                 cls = c['cls']
+                if '_pt' in c['f']:
+                    return True      # an abstract generator is a Point, i.e. a 2-tuple: always truthy
                 if hasattr(cls, '__bool__') or hasattr(cls, '__len__'):
                     r = self.call_method(v, '__bool__' if hasattr(cls, '__bool__') else '__len__', [], {})
                     return self.truth(r)
